@@ -417,7 +417,7 @@ class Fn:
 
 PRELUDE = """(* GENERATED by translate/py2coq.py from %(src)s -- do not edit *)
 From Coq Require Import ZArith List Bool.
-From NV Require Import Base.Bytes Base.PyPrims.
+From NV Require Import Base.Result Base.Bytes Base.PyPrims.
 Import ListNotations.
 Open Scope Z_scope.
 
